@@ -134,7 +134,11 @@ class HTTPRequestParser:
                 # https://tools.ietf.org/html/rfc7230#section-3.5 to support
                 # clients sending an extra CR LF after another request when
                 # using HTTP pipelining
-                header_plus = header_plus.lstrip()
+                while header_plus.startswith(b"\r\n"):
+                    header_plus = header_plus[2:]
+                # other whitespace may be ignored (RFC 9112 3), a bare LF is
+                # not a line terminator and must not be
+                header_plus = header_plus.lstrip(b" \t\x0b\x0c\r")
 
                 if not header_plus:
                     self.empty = True
@@ -209,7 +213,7 @@ class HTTPRequestParser:
         index = header_plus.find(b"\r\n")
 
         if index >= 0:
-            first_line = header_plus[:index].rstrip()
+            first_line = header_plus[:index].rstrip(b" \t\x0b\x0c\r")
             header = header_plus[index + 2 :]
         else:
             raise ParsingError("HTTP message header invalid")
